@@ -1454,8 +1454,11 @@ Proof.
     + destruct (process_broadcast cfg (upd_deferred s None) m fid ctl fn bytes obj) as [s2 o2] eqn:E. inv_pair H.
       apply process_broadcast_spec in E. destruct E as (Hg & _). apply gview_wview in Hg. destruct Hg as (_ & Hd & _).
       exact Hd.
-    + inv_pair H. destruct (s_last_bcast s) as [[]|]; reflexivity.
-    + destruct (q =? ctl_seq (r_ctl resp)); inv_pair H; reflexivity.
+    + inv_pair H. pose proof (bcast_confirmed_frame s false q) as Hf. apply frame_wview in Hf.
+      destruct Hf as (_ & Hd & _). exact Hd.
+    + destruct (q =? ctl_seq (r_ctl resp)); inv_pair H; [|reflexivity].
+      pose proof (bcast_confirmed_frame s true q) as Hf. apply frame_wview in Hf.
+      destruct Hf as (_ & Hd & _). exact Hd.
 Qed.
 
 (* requests other than READ are answered in the step they arrive in *)
@@ -1559,7 +1562,10 @@ Proof.
   unfold classify in H. cbn [N.eqb fn_confirm] in H. rewrite Hu, Hq, N.eqb_refl in H.
   match type of H with (let '(_, _) := ?X in _) = _ => destruct X as [[s3 ns] o2] eqn:E2 end.
   match type of H with (let '(_, _) := ?X in _) = _ => destruct X as [s4 o3] eqn:E3 end. inv_pair H.
-  apply end_unsol_spec in E2. destruct E2 as (_ & Hv & _ & -> & _). psimpl_in Hv.
+  apply end_unsol_spec in E2. destruct E2 as (_ & Hv & _ & -> & _).
+  match type of Hv with context [s_deferred (bcast_confirmed ?x ?u ?q)] =>
+    pose proof (bcast_confirmed_frame x u q) as Hbf end.
+  apply frame_wview in Hbf. destruct Hbf as (_ & Hbd & _). psimpl_in Hbd. psimpl_in Hv.
   assert (Hd2 : s_deferred s3 = Some df) by congruence.
   destruct (resume_St3_served _ _ _ _ _ _ E3 Hd2) as (ans & Hs & tl & ->).
   exists ans, tl. split; [|exact Hs]. cbn [app]. destruct n; reflexivity.
